@@ -96,20 +96,32 @@ pub struct World {
 }
 
 impl World {
-    pub fn new(committed: Vec<BLeaf>) -> World {
-        let tree = Tree::new(&committed);
-        let commitment = tree.to_merkle_tree_batch_commitment();
-        let tv = serde_json::to_value(&tree).expect("tree serialises");
-        let nodes: Vec<Vec<u8>> = tv["nodes"]
-            .as_array()
-            .expect("nodes array")
-            .iter()
-            .map(|n| n.as_array().expect("node bytes").iter().map(|b| b.as_u64().unwrap() as u8).collect())
-            .collect();
-        World { committed, tree, commitment, nodes }
+    /// builds the tree with the real code; a panic of that code is a failure to build, not a harness crash
+    pub fn try_new(committed: Vec<BLeaf>) -> Result<World, String> {
+        let (tree, commitment) = catch(|| {
+            let tree = Tree::new(&committed);
+            let commitment = tree.to_merkle_tree_batch_commitment();
+            (tree, commitment)
+        })
+        .map_err(|p| format!("MerkleTree::new panicked: {p}"))?;
+        // node hashes are mutation material only; if the tree no longer serialises the way the harness
+        // expects, the designed families that need them are skipped (nodes stays empty)
+        let nodes: Vec<Vec<u8>> = serde_json::to_value(&tree)
+            .ok()
+            .and_then(|tv| {
+                tv["nodes"].as_array().map(|a| a.iter().map(|n| n.as_array().map(|b| b.iter().map(|x| x.as_u64().unwrap_or(0) as u8).collect()).unwrap_or_default()).collect())
+            })
+            .unwrap_or_default();
+        Ok(World { committed, tree, commitment, nodes })
     }
-    pub fn members(n: usize) -> World {
-        World::new((0..n).map(member).collect())
+    pub fn new(committed: Vec<BLeaf>) -> World {
+        World::try_new(committed).expect("tree can be built")
+    }
+    pub fn try_members(n: usize) -> Result<World, String> {
+        World::try_new((0..n).map(member).collect())
+    }
+    pub fn nodes_ok(&self) -> bool {
+        self.nodes.len() >= self.n()
     }
     pub fn n(&self) -> usize {
         self.committed.len()
@@ -227,10 +239,26 @@ pub fn honest_case(w: &World, idx: &[usize]) -> Case {
     Case { leaves: idx.iter().map(|&i| w.committed[i]).collect(), indices: path.indices.clone(), values: path.values.clone() }
 }
 
+pub fn try_honest_case(w: &World, idx: &[usize]) -> Option<Case> {
+    catch(|| honest_case(w, idx)).ok()
+}
+
+fn cannot_build(rep: &mut Report, n: usize, e: &str, part: &str) {
+    // completeness is part of C09: a list that cannot be committed has no verifying proof
+    rep.eval();
+    violation(rep, "C09/stm-batch-path:honest-proof-rejected", || (format!("the registration tree of {n} leaves cannot be built: {e}"), json!({"part": part, "n": n})));
+}
+
 /// completeness: every non-empty subset of every tree size (also through the byte codec)
 pub fn honest_sweep(n: usize) -> Report {
     let mut rep = Report::new("exploration", "");
-    let w = World::members(n);
+    let w = match World::try_members(n) {
+        Ok(w) => w,
+        Err(e) => {
+            cannot_build(&mut rep, n, &e, "stm-honest");
+            return rep;
+        }
+    };
     for mask in 1u32..(1u32 << n) {
         let idx = subset_indices(mask, n);
         let case = match catch(|| honest_case(&w, &idx)) {
@@ -317,7 +345,7 @@ pub fn material(w: &World) -> Material {
     leaf_alphabet.push(("outsider".into(), outsider()));
     leaf_alphabet.push(("padding-preimage".into(), padding_preimage()));
     // byte strings that hash to an internal node (children concatenated)
-    let internal = w.nodes.len() - n;
+    let internal = w.nodes.len().saturating_sub(n);
     for i in 0..internal {
         let l = w.nodes.get(2 * i + 1).cloned().unwrap_or_else(|| z.clone());
         let r = w.nodes.get(2 * i + 2).cloned().unwrap_or_else(|| z.clone());
@@ -452,10 +480,10 @@ pub fn mutations(c: &Case, m: &Material) -> Vec<(String, Case)> {
 /// all single (depth 1) or single and paired (depth 2) mutations of every honest proof of a tree of n leaves
 pub fn mutation_sweep(n: usize, mask: u32, depth: usize, chunk: usize, chunks: usize) -> Report {
     let mut rep = Report::new("exploration", "");
-    let w = World::members(n);
+    let Ok(w) = World::try_members(n) else { return rep }; // reported by the honest sweep
     let m = material(&w);
     let idx = subset_indices(mask, n);
-    let honest = honest_case(&w, &idx);
+    let Some(honest) = try_honest_case(&w, &idx) else { return rep };
     let singles = mutations(&honest, &m);
     for (i, (label, case)) in singles.iter().enumerate() {
         if i % chunks != chunk {
@@ -477,7 +505,7 @@ pub fn mutation_sweep(n: usize, mask: u32, depth: usize, chunk: usize, chunks: u
 /// honest proofs of list A put before the commitment of a neighbouring list B ("root altered")
 pub fn cross_commitment_sweep(n: usize) -> Report {
     let mut rep = Report::new("exploration", "");
-    let a = World::members(n);
+    let Ok(a) = World::try_members(n) else { return rep }; // reported by the honest sweep
     let mut neighbours: Vec<(String, Vec<BLeaf>)> = vec![];
     for j in 0..n {
         let mut b = a.committed.clone();
@@ -504,10 +532,10 @@ pub fn cross_commitment_sweep(n: usize) -> Report {
         neighbours.push(("last leaf removed".into(), b));
     }
     for (what, b) in neighbours {
-        let wb = World::new(b);
+        let Ok(wb) = World::try_new(b) else { continue };
         for mask in 1u32..(1u32 << n) {
             let idx = subset_indices(mask, n);
-            let case = honest_case(&a, &idx);
+            let Some(case) = try_honest_case(&a, &idx) else { continue };
             eval_case_against(&mut rep, &wb.committed, &wb.commitment, &case, Label("honest proof of the list before:", &what), true);
         }
     }
@@ -517,6 +545,10 @@ pub fn cross_commitment_sweep(n: usize) -> Report {
 pub fn replay(rep: &mut Report, v: &Value) {
     if v["part"] == "stm-large" {
         rep.merge(large_size_sweep(v["n"].as_u64().unwrap_or(17) as usize, false));
+        return;
+    }
+    if v["part"] == "stm-root" {
+        rep.merge(root_commitment_sweep(v["n"].as_u64().unwrap_or(1) as usize));
         return;
     }
     if v["part"] == "stm-honest" {
@@ -597,7 +629,11 @@ pub fn forger_sweep(n: usize, max_claims: usize, node_like: bool, first: usize) 
         virtual_nodes.push((2 * heap + 1, H::digest(inner_a.as_slice()).to_vec()));
         virtual_nodes.push((2 * heap + 2, H::digest(inner_b.as_slice()).to_vec()));
     }
-    let w = World::new(committed);
+    let Ok(w) = World::try_new(committed) else { return rep };
+    if !w.nodes_ok() {
+        rep.add_extra("designed_forgery_families_skipped_without_reference_structure", 1);
+        return rep;
+    }
     let range = forger_range(n);
     let mut sets: Vec<Vec<usize>> = vec![];
     fn rec(start: usize, range: usize, left: usize, cur: &mut Vec<usize>, out: &mut Vec<Vec<usize>>) {
@@ -678,7 +714,11 @@ pub fn forger_sweep(n: usize, max_claims: usize, node_like: bool, first: usize) 
 /// alphabet leaf, every sequence of alphabet values up to one more than the tree depth
 pub fn brute_force_single_claim(n: usize, index: usize) -> Report {
     let mut rep = Report::new("exploration", "");
-    let w = World::members(n);
+    let Ok(w) = World::try_members(n) else { return rep };
+    if !w.nodes_ok() {
+        rep.add_extra("designed_forgery_families_skipped_without_reference_structure", 1);
+        return rep;
+    }
     let m = material(&w);
     let z = H::digest([0u8]).to_vec();
     let mut zz = z.clone();
@@ -746,10 +786,20 @@ pub fn selected_subsets(n: usize) -> Vec<Vec<usize>> {
 /// larger sizes: selected subsets, honest proof plus the single mutations of it
 pub fn large_size_sweep(n: usize, mutate: bool) -> Report {
     let mut rep = Report::new("exploration", "");
-    let w = World::members(n);
+    let w = match World::try_members(n) {
+        Ok(w) => w,
+        Err(e) => {
+            cannot_build(&mut rep, n, &e, "stm-large");
+            return rep;
+        }
+    };
     let m = material(&w);
     for idx in selected_subsets(n) {
-        let case = honest_case(&w, &idx);
+        let Some(case) = try_honest_case(&w, &idx) else {
+            rep.eval();
+            violation(&mut rep, "C09/stm-batch-path:proof-generation-panics", || (format!("compute_merkle_tree_batch_path panicked for n={n} indices={idx:?}"), json!({"part": "stm-large", "n": n})));
+            continue;
+        };
         let v = eval_case(&mut rep, &w, &case, "honest", true);
         if v != Verdict::Accepted {
             violation(&mut rep, "C09/stm-batch-path:honest-proof-rejected", || {
@@ -784,6 +834,45 @@ pub fn large_size_sweep(n: usize, mutate: bool) -> Report {
                 let case = Case { leaves, indices: idx.clone(), values: values.clone() };
                 eval_case(&mut rep, &w, &case, "forger's path", true);
             }
+        }
+    }
+    rep
+}
+
+/// Structure-independent soundness, through the real code only: the commitment binds every leaf.
+/// For every position j the trees over L and over L' (leaf j replaced by a value used nowhere else) must
+/// have different roots; if they are equal, the batch path the real code generates for L'_j from
+/// tree(L') is put before the commitment of L and, when it verifies, reported.
+pub fn root_commitment_sweep(n: usize) -> Report {
+    let mut rep = Report::new("exploration", "");
+    let Ok(w) = World::try_members(n) else { return rep }; // reported by the honest / large-size sweep
+    for j in 0..n {
+        rep.eval();
+        rep.nontrivial(&("stm-root-commits", n, j));
+        let mut l2 = w.committed.clone();
+        l2[j] = BLeaf::new(&[0x4e, (j >> 8) as u8, j as u8, 0x5a]);
+        let Ok(w2) = World::try_new(l2.clone()) else {
+            rep.outcome("stm-tree:root-commitment:variant-cannot-be-built");
+            continue;
+        };
+        if w2.commitment.root != w.commitment.root {
+            rep.outcome("stm-tree:root-differs-when-a-leaf-is-replaced");
+            continue;
+        }
+        rep.outcome("stm-tree:root-unchanged-when-a-leaf-is-replaced");
+        let confirmed = try_honest_case(&w2, &[j]).map(|case| run_verify(&w.commitment, &case) == Verdict::Accepted).unwrap_or(false);
+        if confirmed {
+            violation(&mut rep, "C09/stm-tree:root-does-not-commit-to-leaf", || {
+                (
+                    format!(
+                        "registration tree of {n} leaves: replacing leaf #{j} by {} leaves the root unchanged, and the batch path generated for the replacement verifies against the commitment of the original list, which does not contain it",
+                        l2[j].hex()
+                    ),
+                    json!({"part": "stm-root", "n": n, "j": j, "leaves": w.committed.iter().map(|l| l.hex()).collect::<Vec<_>>(), "leaves_replaced": l2.iter().map(|l| l.hex()).collect::<Vec<_>>()}),
+                )
+            });
+        } else {
+            rep.outcome("stm-tree:root-unchanged-but-replacement-not-provable");
         }
     }
     rep
